@@ -27,7 +27,9 @@ ASSUMPTIONS = ['single bytecodes are atomic (CPython GIL)',
                'nothing is claimed beyond the preemption bound',
                'vnet models the socket API (selftest/vnet_conformance)']
 
-TEXT = {'a1': 'a1', 'a2': 'a2' + 'x' * 70, 'b': 'b', 'b1': 'b1' + 'y' * 66,
+# a2: > 127 bytes raw but < 128 compressed (the two lengths need different
+# VarInt widths); b1: above the threshold, both lengths one byte wide
+TEXT = {'a1': 'a1', 'a2': 'a2' + 'x' * 200, 'b': 'b', 'b1': 'b1' + 'y' * 66,
         'b2': 'b2', 'c': 'c' * 3}
 
 PROGRAMS = {
